@@ -7,6 +7,7 @@ in-range values and on byte strings (reference encodings, single-fault mutants, 
 import json
 import os
 import random
+import zlib
 import sys
 
 sys.path.insert(0, os.path.dirname(os.path.dirname(os.path.abspath(__file__))))
@@ -44,7 +45,7 @@ def opts_for(backend):
 class Backend:
     def __init__(self, run, backend, tier, seed, n_desc, tag=None, extra_texts=(), opts=None):
         self.run, self.backend, self.tier, self.seed = run, backend, tier, seed
-        self.rng = random.Random(seed * 31 + hash(backend) % 1000)
+        self.rng = random.Random(seed * 31 + zlib.crc32(backend.encode()) % 1000)   # (hash() of a str differs per process)
         self.opts = opts or opts_for(backend)
         self.n_desc = n_desc
         self.tag = tag or backend
